@@ -114,16 +114,54 @@ func runC17(c *RuleCtx) {
 			effects = append(effects, n)
 			desc = append(desc, "ids examined")
 		}
-		b1 := AtomCmp("peerhave[p] > MaxIHaveMessages", idx("peerhave"), ">", prm("MaxIHaveMessages"))
+		// the tested quantity is the incremented counter: peerhave[p] read after the increment, or the
+		// value `old + 1` that is also what the increment stores
+		isOne := func(v *V) bool { return v != nil && v.IsConst("1") }
+		incremented := func(v *V) bool {
+			if idx("peerhave")(v) {
+				return true
+			}
+			return v != nil && v.Kind == "op" && v.Name == "+" && ((idx("peerhave")(v.Args[0]) && isOne(v.Args[1])) || (idx("peerhave")(v.Args[1]) && isOne(v.Args[0])))
+		}
+		b1 := AtomCmp("peerhave[p] > MaxIHaveMessages", incremented, ">", prm("MaxIHaveMessages"))
 		gateReturn(c, "B1", f, b1, effects, desc)
-		// the counter is incremented before the test on every path
+		// the counter is incremented (by one, in any of the equivalent forms) before the test on every path
 		for _, e := range g.AtomEdges(b1, true) {
 			cp, _ := g.Locate(condNodeOf(e))
 			ok := g.DominatedByNode(cp, func(n ast.Node) bool {
-				s, isInc := n.(*ast.IncDecStmt)
-				return isInc && s.Tok == token.INC && idx("peerhave")(p.R(f).Val(s.X))
+				for _, s := range p.AllStores() {
+					if s.Fn == f && s.Field == gsField("peerhave") && s.Node == n {
+						if add, ok := counterAddend(p, f, s); ok && isOne(add) {
+							return true
+						}
+					}
+				}
+				return false
 			})
-			c.Check(ok, "B1", f.Name, "IHAVE counter incremented before the test", condNodeOf(e), "peerhave[p]++ dominates the test", "the per-heartbeat IHAVE counter is not incremented before it is tested")
+			// in the `old + 1` form the counter must have been read before the increment (otherwise the test is off by one)
+			if be, isCmp := unparen(g.condOf[e.From]).(*ast.BinaryExpr); isCmp && ok {
+				for _, side := range []ast.Expr{be.X, be.Y} {
+					v := stripConv(p.R(f).Val(side))
+					if v != nil && v.Kind == "op" && v.Name == "+" {
+						for _, a := range v.Args {
+							if idx("peerhave")(a) && a.Node != nil {
+								rp, located := g.Locate(a.Node)
+								if located && g.DominatedByNode(rp, func(n ast.Node) bool {
+									for _, s := range p.AllStores() {
+										if s.Fn == f && s.Field == gsField("peerhave") && s.Node == n {
+											return true
+										}
+									}
+									return false
+								}) {
+									ok = false
+								}
+							}
+						}
+					}
+				}
+			}
+			c.Check(ok, "B1", f.Name, "IHAVE counter incremented before the test", condNodeOf(e), "the increment dominates the test of the incremented value", "the per-heartbeat IHAVE counter is not incremented before it is tested (or the test adds one to the already incremented counter)")
 		}
 		b2 := AtomCmp("iasked[p] >= MaxIHaveLength", idx("iasked"), ">=", prm("MaxIHaveLength"))
 		gateReturn(c, "B2", f, b2, effects, desc)
@@ -364,7 +402,7 @@ func runC17(c *RuleCtx) {
 			c.Undecided("B12", f.Name, "id collection", f.Decl, "no collection of message ids")
 		}
 		for _, cs := range p.Sites(f, false, fnSendRPC) {
-			isSender := AtomCmp("p == from", func(v *V) bool { return v.Kind == "rangekey" }, "==", func(v *V) bool { return v.Kind == "var" && v.Name == "from" })
+			isSender := AtomCmp("p == from", func(v *V) bool { return v.Kind == "rangekey" }, "==", isParam(f, 0))
 			ok, why := p.DomAny(f, cs.Call, AtomWant{isSender, false})
 			c.Check(ok, "B12", f.Name, "IDONTWANT never sent to the sender", cs.Call, why, why)
 			feat := AtomBool("feature(Idontwant, gs.peers[p])", func(v *V) bool {
@@ -384,20 +422,34 @@ func runC17(c *RuleCtx) {
 	// ---------------- MessageCache B13, B14
 	if f := c.MustFn("B13", "(*MessageCache).GetGossipIDs"); f != nil {
 		okAny := false
-		inspectNoLit(f.Body, func(n ast.Node) bool {
-			r, ok := n.(*ast.RangeStmt)
+		// form-independent: every use of mc.history in this function is the operand of the slice
+		// expression history[:gossip] (whatever loops over the result)
+		ast.Inspect(f.Body, func(n ast.Node) bool {
+			se, ok := n.(*ast.SelectorExpr)
 			if !ok {
 				return true
 			}
-			v := p.R(f).Val(r.X)
-			if v.Kind == "slice" && v.Args[0].IsField("MessageCache.history") {
-				okAny = true
-				good := v.Args[1].Name == "_" && v.Args[2].IsField("MessageCache.gossip")
-				c.Check(good, "B13", f.Name, "gossip ids from history[:gossip] only", r, v.String(), "gossip ids are read from "+v.String())
-			} else if v.IsField("MessageCache.history") {
-				okAny = true
-				c.Bad("B13", f.Name, "gossip ids from history[:gossip] only", r, "the whole history is advertised")
+			if sel := f.Info().Selections[se]; sel == nil || sel.Kind() != types.FieldVal || fieldOwnerName(sel) != "MessageCache.history" {
+				return true
 			}
+			okAny = true
+			var par ast.Node = p.parents[se]
+			for {
+				pe, isP := par.(*ast.ParenExpr)
+				if !isP {
+					break
+				}
+				par = p.parents[pe]
+			}
+			sl, isSlice := par.(*ast.SliceExpr)
+			if !isSlice || unparen(sl.X) != ast.Expr(se) {
+				c.Bad("B13", f.Name, "gossip ids from history[:gossip] only", se, "the history is read outside the gossip window history[:gossip] (the whole history would be advertised)")
+				return true
+			}
+			v := p.R(f).Val(sl)
+			lowOK := v.Args[1].Name == "_" || v.Args[1].IsConst("0")
+			good := lowOK && v.Args[2].IsField("MessageCache.gossip") && sl.Max == nil
+			c.Check(good, "B13", f.Name, "gossip ids from history[:gossip] only", sl, v.String(), "gossip ids are read from "+v.String())
 			return true
 		})
 		if !okAny {
@@ -603,10 +655,72 @@ func runC17(c *RuleCtx) {
 	}
 	if f := c.MustFn("SCHED", "(*GossipSubRouter).clearIDontWantCounters"); f != nil {
 		g := p.Graph(f)
-		expired := AtomCmp("ttl <= 0", func(v *V) bool { return v.Kind == "index" && v.Args[0].Kind == "rangeval" }, "<=", isZero)
+		// The TTL of an entry is either the map element mids[mid] (mids = a value of the range over
+		// gs.unwanted) or the value variable of the inner range over mids (then the decremented value has to be
+		// stored back). Accepted decrements: x--, x -= 1, x = x - 1.
+		res := p.R(f)
+		isInnerMap := func(v *V) bool { return v != nil && v.Kind == "rangeval" && v.Args[0].IsField(gsField("unwanted")) }
+		ttlVar := func(v *V) bool {
+			if v == nil || (v.Kind != "var" && v.Kind != "rangeval") || v.Obj == nil {
+				return false
+			}
+			for _, d := range res.Defs(v.Obj) {
+				if d.kind == "range-val" && d.rangeX != nil && isInnerMap(res.Val(d.rangeX)) {
+					return true
+				}
+			}
+			return false
+		}
+		ttlElem := func(v *V) bool { return v != nil && v.Kind == "index" && isInnerMap(v.Args[0]) }
+		isTTL := func(v *V) bool { return ttlElem(v) || ttlVar(v) }
+		expired := AtomCmp("ttl <= 0", isTTL, "<=", isZero)
 		edges := g.AtomEdges(expired, true)
 		if len(edges) == 0 {
 			c.Bad("SCHED", f.Name, "IDONTWANT forgotten at TTL <= 0", f.Decl, "no `ttl <= 0` test")
+		}
+		isDecrement := func(n ast.Node) (bool, bool) { // (is a decrement of the TTL, of the local copy)
+			switch s := n.(type) {
+			case *ast.IncDecStmt:
+				if s.Tok == token.DEC {
+					if id, ok := unparen(s.X).(*ast.Ident); ok {
+						if o := f.Info().Uses[id]; o != nil && ttlVar(&V{Kind: "var", Obj: o}) {
+							return true, true
+						}
+						return false, false
+					}
+					return ttlElem(res.Val(s.X)), false
+				}
+			case *ast.AssignStmt:
+				if len(s.Lhs) != 1 || len(s.Rhs) != 1 {
+					return false, false
+				}
+				local := false
+				if id, ok := unparen(s.Lhs[0]).(*ast.Ident); ok {
+					o := f.Info().Uses[id]
+					if o == nil || !ttlVar(&V{Kind: "var", Obj: o}) {
+						return false, false
+					}
+					local = true
+				} else if !ttlElem(res.Val(s.Lhs[0])) {
+					return false, false
+				}
+				one := func(e ast.Expr) bool { v := res.Val(e); return v.IsConst("1") }
+				if s.Tok == token.SUB_ASSIGN && one(s.Rhs[0]) {
+					return true, local
+				}
+				if s.Tok == token.ASSIGN {
+					if be, ok := unparen(s.Rhs[0]).(*ast.BinaryExpr); ok && be.Op == token.SUB && one(be.Y) {
+						if local {
+							if id, ok := unparen(be.X).(*ast.Ident); ok && f.Info().Uses[id] == f.Info().Uses[unparen(s.Lhs[0]).(*ast.Ident)] {
+								return true, true
+							}
+						} else if isTTL(res.Val(be.X)) {
+							return true, false
+						}
+					}
+				}
+			}
+			return false, false
 		}
 		for _, e := range edges {
 			ok, _ := g.MustPass(EdgeTarget(e), PassOpts{Until: p.iterationUntil(f, condNodeOf(e))}, func(n ast.Node) bool {
@@ -621,10 +735,38 @@ func runC17(c *RuleCtx) {
 			// decremented once per heartbeat per id
 			loops := p.EnclosingLoops(condNodeOf(e))
 			if len(loops) > 0 {
+				localDec := false
 				okd, why := p.LoopBodyMust(f, loops[0], nil, func(n ast.Node) bool {
-					s, ok := n.(*ast.IncDecStmt)
-					return ok && s.Tok == token.DEC
+					d, local := isDecrement(n)
+					if d && local {
+						localDec = true
+					}
+					return d
 				})
+				if okd && localDec {
+					// the decremented copy must be written back after the decrement, in the same iteration
+					storeBack := func(n ast.Node) bool {
+						as, ok := n.(*ast.AssignStmt)
+						if !ok || len(as.Lhs) != 1 || len(as.Rhs) != 1 || as.Tok != token.ASSIGN {
+							return false
+						}
+						if !ttlElem(res.Val(as.Lhs[0])) {
+							return false
+						}
+						id, ok := unparen(as.Rhs[0]).(*ast.Ident)
+						return ok && f.Info().Uses[id] != nil && ttlVar(&V{Kind: "var", Obj: f.Info().Uses[id]})
+					}
+					for _, blk := range g.C.Blocks {
+						for i, n := range blk.Nodes {
+							if d, local := isDecrement(n); d && local && within(n, loops[0]) {
+								okb, _ := g.MustPass(Point{blk, i + 1}, PassOpts{Until: p.iterationUntil(f, n)}, storeBack)
+								if !okb {
+									okd, why = false, "the decremented TTL copy is not stored back into the map after the decrement"
+								}
+							}
+						}
+					}
+				}
 				c.Check(okd, "SCHED", f.Name, "every IDONTWANT TTL decremented each heartbeat", loops[0], why, why)
 			}
 		}
@@ -777,21 +919,29 @@ func runC17(c *RuleCtx) {
 			empty := func(h string) Atom {
 				return AtomCmp("len("+h+" result) == 0", func(x *V) bool { return x.Kind == "len" && x.Args[0].IsCall("(*GossipSubRouter)."+h) }, "==", isZero)
 			}
-			returnsIn(f, func(r *ast.ReturnStmt) {
-				rp, _ := g.Locate(r)
-				sp, _ := g.Locate(cs.Call)
-				// only returns after the handlers ran
-				if !g.DominatedByNode(rp, p.callPred(f, "(*GossipSubRouter).handleIDontWant")) {
-					return
+			// implication form (independent of guard-clause vs. if-block shape): from the end of the
+			// handlers, every path on which "h produced nothing" is not established reaches the send
+			var last ast.Node
+			for _, hs := range p.Sites(f, false, "(*GossipSubRouter).handleIDontWant") {
+				last = hs.Call
+			}
+			lp, lok := g.Locate(last)
+			for _, h := range []string{"handleIHave", "handleIWant", "handleGraft"} {
+				if !lok {
+					c.Undecided("WIRE", f.Name, "reply sent whenever "+h+" produced something", f.Decl, "handleIDontWant call not located")
+					continue
 				}
-				if g.DominatedByNode(rp, func(n ast.Node) bool { return n == sp.B.Nodes[sp.I] }) {
-					return
+				cut := cutSet{}
+				for _, e := range g.AtomEdges(empty(h), true) {
+					cut[e] = true
 				}
-				for _, h := range []string{"handleIHave", "handleIWant", "handleGraft"} {
-					ok, why := p.DomAny(f, r, AtomWant{empty(h), true})
-					c.Check(ok, "WIRE", f.Name, "no reply only if "+h+" produced nothing", r, why, why)
+				ok, bad := g.MustPass(lp.After(), PassOpts{Cut: cut}, func(n ast.Node) bool { return contains(n, cs.Call) })
+				where := ""
+				if bad != nil && len(bad.Nodes) > 0 {
+					where = p.Pos(bad.Nodes[len(bad.Nodes)-1])
 				}
-			})
+				c.Check(ok, "WIRE", f.Name, "reply sent whenever "+h+" produced something", cs.Call, "every path after the handlers that does not establish len("+h+" result) == 0 reaches the send", "a path ending at "+where+" skips the reply although "+h+" may have produced output")
+			}
 		}
 	}
 	c.Min["B1"] = 5
@@ -813,6 +963,68 @@ func runC17(c *RuleCtx) {
 	c.Min["SCHED"] = 30
 	c.Min["PROM"] = 18
 	c.Min["WIRE"] = 9
+}
+
+// counterAddend recognises a store that adds to an indexed counter in any of its equivalent forms —
+// c[k]++, c[k] += e, c[k] = c[k] + e, or c[k] = old + e with old a local holding c[k] — and returns the
+// canonical value of the addend.
+func counterAddend(p *Prog, f *Func, s Store) (*V, bool) {
+	res := p.R(f)
+	switch s.Kind {
+	case "elem-incdec":
+		if s.Tok == token.INC {
+			return &V{Kind: "lit", Name: "1"}, true
+		}
+	case "elem-opassign":
+		if s.Tok == token.ADD_ASSIGN && s.RHS != nil {
+			if id, ok := unparen(s.RHS).(*ast.Ident); ok {
+				if o := f.Info().Uses[id]; o != nil {
+					return &V{Kind: "var", Name: id.Name, Obj: o, Node: id}, true
+				}
+			}
+			return res.Val(s.RHS), true
+		}
+	case "elem-assign":
+		if s.RHS == nil {
+			return nil, false
+		}
+		be, ok := unparen(s.RHS).(*ast.BinaryExpr)
+		var l, r ast.Expr
+		if ok && be.Op == token.ADD {
+			l, r = be.X, be.Y
+		} else {
+			// a local that holds old + e
+			v := res.Val(s.RHS)
+			if v.Kind == "op" && v.Name == "+" && len(v.Args) == 2 {
+				old := res.Val(s.LHS)
+				if v.Args[0].Equal(old) {
+					return v.Args[1], true
+				}
+				if v.Args[1].Equal(old) {
+					return v.Args[0], true
+				}
+			}
+			return nil, false
+		}
+		old := res.Val(s.LHS)
+		mk := func(e ast.Expr) *V {
+			if id, ok := unparen(e).(*ast.Ident); ok {
+				if o, isVar := f.Info().Uses[id].(*types.Var); isVar && !o.IsField() {
+					if _, single := res.SingleDef(o); !single {
+						return &V{Kind: "var", Name: id.Name, Obj: o, Node: id}
+					}
+				}
+			}
+			return res.Val(e)
+		}
+		if res.Val(l).Equal(old) {
+			return mk(r), true
+		}
+		if res.Val(r).Equal(old) {
+			return mk(l), true
+		}
+	}
+	return nil, false
 }
 
 // checkIHaveTruncation: B5.
@@ -910,8 +1122,10 @@ func checkIHaveTruncation(c *RuleCtx, f *Func) {
 		if s.Fn.Root() != f || s.Field != gsField("iasked") {
 			continue
 		}
-		if s.Kind == "elem-opassign" && s.Tok == token.ADD_ASSIGN {
-			if id, ok := unparen(s.RHS).(*ast.Ident); ok && f.Info().Uses[id] == bound {
+		if add, ok := counterAddend(p, f, s); ok {
+			if add.Kind == "var" && add.Obj == bound {
+				charged = true
+			} else if id, isId := add.Node.(*ast.Ident); isId && f.Info().Uses[id] == bound {
 				charged = true
 			}
 		} else {
